@@ -4,6 +4,14 @@ Proof      : coq/Props/C12.v over Gen/GenFilter.v (the expression _build_conditi
              to_pyarrow_compute_expression) and Gen/GenFilterConst.v (operator alias table, between /
              is_null alias tuples), REGENERATED from filters.py on every run; Model/Filter.v (pyarrow
              primitive semantics eval3, parse, the read pipelines of transaction.py after the repairs).
+             Tables with a HISTORY: Model/Manifest.v (manifest entries, commit_tx = Transaction._commit_file_ops: every
+             manifest of the base snapshot kept / rewritten from its survivors / dropped, then one manifest of all appended
+             files; run = any sequence of commits; table_files = Table._get_all_data_files) over Gen/GenManifest.v (the
+             bound expressions of create_manifest_file / read_manifest_file, the survivor test and the keep / rewrite / drop
+             decision, REGENERATED from file_manager.py / transaction.py; fail-closed on anything but the modelled codec
+             pair) and Gen/GenBound.v.  C12_manifest_roundtrip, C12_rewrite_decision, C12_history_view (for ANY history the
+             decoded entries of the manifests are the flat list semantics spec_run: deleted files removed, appended added,
+             bounds untouched), C12_history_files, C12_history_sql (every API returns the SQL answer on the live files).
 Oracles    : implementation only, judged by harness/lib/sqlref.py (plain Python, no datashard import); the oracle tables also
              carry column types for which the writer stores NO bounds (binary, fixed: bytes, compared lexicographically) next to
              columns with bounds, in several files -- wrong pruning on absent statistics makes every API agree on a wrong (empty)
@@ -14,6 +22,12 @@ Oracles    : implementation only, judged by harness/lib/sqlref.py (plain Python,
                malformed  enumerated malformed filters x {empty, populated, all-files-pruned table} x all APIs
                edges      per column type: empty / NULL-only / NULL-containing value sets, comparisons with NULL,
                           between with NULL or reversed bounds, every is_null alias, conjunctions, all-pruned
+               rewrites   per column type (and long text): a table whose manifests went through REWRITES (several files per
+                          transaction, partial deletes -- one manifest twice --, a mixed transaction, expiry, collection,
+                          fresh handle; harness/lib/c12_hist.py), literals at / around every live file's extremes + edge cases
+               histories  half of the e2e tables are built by a random history (transactions appending 1-4 files, deleting
+                          part of a manifest / whole manifests / across manifests, both at once, expiry, aborted transactions,
+                          garbage collection, reload); expected rows = rows of the files live by the harness' own list semantics
                corpus     the hand-confirmed failing inputs (F-C12 NaN pushdown, malformed filter on an empty table)
 Findings   : two defects of the unchanged tree (findings/C12-unchanged-tree.log, findings/C12-replay-*.json), both repaired on
              the library branch: (1) scan(filter, verify_checksums=False) pushed the filter into pq.read_table, whose row-group
@@ -25,6 +39,10 @@ Tie        : correspondence of every hand-written model piece with the real code
                parse      filters.parse_filter_dict                              vs parse (uses Gen tables)
                build      filters.to_pyarrow_compute_expression + Table.filter   vs build (uses Gen) + filter_rows
                pipelines  Table.scan / scan_batches / iter_records on real tables vs scan_table / scan_batches / iter_records
+                          (a third of the tables built by a history; the model scans the live files with exact bounds)
+               history    real histories vs Model/Manifest.v `run`: the current snapshot's manifests entry by entry (file,
+                          per bounded column the STORED tag and the value decoded from the stored string), the data files
+                          _get_all_data_files returns vs `table_files`, both vs the list semantics
 """
 from __future__ import annotations
 
@@ -34,6 +52,7 @@ import os
 import shutil
 from typing import Any, Dict, List, Optional, Tuple
 
+from harness.lib import c12_hist as hist
 from harness.lib import coqbuild, sqlref
 from harness.lib.coqio import C, Some, coq_string
 from harness.lib import values as _values
@@ -70,26 +89,38 @@ LEVEL = "proof"
 THEOREMS = ["C12_compile_correct", "C12_compile_total", "C12_conj", "C12_api_agree", "C12_api_sql", "C12_api_sql_sound_bounds", "C12_text_bounds_conservative", "C12_prefix_lower_bound",
             "C12_prefix_upper_bound_refuted", "C12_typed_evaluates", "C12_refused_raises",
             "C12_strict", "C12_strict_everywhere", "C12_operator_faithful", "C12_operator_table", "C12_special_keys", "C12_project_after",
-            "C12_api_agree_empty_projection_refuted"]
-GEN_FILES = ["GenFilter.v", "GenFilterConst.v", "GenPrune.v"]
+            "C12_api_agree_empty_projection_refuted",
+            "C12_manifest_roundtrip", "C12_rewrite_decision", "C12_history_view", "C12_history_files", "C12_history_sql"]
+GEN_FILES = ["GenFilter.v", "GenFilterConst.v", "GenPrune.v", "GenBound.v", "GenManifest.v"]
 REQ = ["DS.Model.Value", "DS.Model.FilterExpr", "DS.Gen.GenPrune", "DS.Model.Prune", "DS.Gen.GenFilterConst", "DS.Gen.GenFilter",
        "DS.Model.Filter"]
+REQ_HIST = REQ + ["DS.Model.BoundPrim", "DS.Gen.GenBound", "DS.Model.Bound", "DS.Model.ManifestBase", "DS.Gen.GenManifest", "DS.Model.Manifest"]
 
 MANIFEST_ENTRY = {
     "level_text": "C12_compile_correct / C12_conj (the compiled expression is TRUE exactly on the SQL-TRUE rows), C12_api_agree "
                   "(scan verify on/off, scan_batches with any batching, iter_records return the same rows or the same error for "
                   "every table, layout, projection and filter), C12_api_sql (that answer is project cols (filter sql (concat files)), "
                   "pruning included), C12_strict / C12_strict_everywhere / C12_operator_faithful / C12_operator_table (malformed "
-                  "filters raise in every API, accepted operators mean what the table says), C12_project_after -- proved in Coq, "
-                  "unbounded, over the filter compiler and operator tables regenerated from filters.py on every run; pyarrow "
-                  "primitive semantics, parser, builder and the four read pipelines tied to the real code by differential "
-                  "execution; implementation-only oracles (12 API variants vs an independent SQL evaluator) search for a failing input",
-    "level_note": "trusted: Coq kernel; translator/gen_filter.py; pyarrow primitive semantics as written in Model/Filter.v eval3 "
+                  "filters raise in every API, accepted operators mean what the table says), C12_project_after, and for tables "
+                  "with a HISTORY C12_history_view / C12_history_files / C12_history_sql (after any sequence of committed "
+                  "transactions -- multi-file appends, deletes that keep / rewrite / drop manifests, both at once -- the data "
+                  "files a scan finds and the bounds pruning reads are those of the flat list semantics, and every API returns "
+                  "the SQL answer on the live files), C12_manifest_roundtrip, C12_rewrite_decision -- proved in Coq, "
+                  "unbounded, over the filter compiler and operator tables regenerated from filters.py and the manifest bound "
+                  "expressions / rewrite decision regenerated from file_manager.py / transaction.py on every run; pyarrow "
+                  "primitive semantics, parser, builder, the four read pipelines and the manifest machine tied to the real code "
+                  "by differential execution; implementation-only oracles (12 API variants vs an independent SQL evaluator, on "
+                  "tables appended file by file and on tables built by random / directed histories) search for a failing input",
+    "level_note": "trusted: Coq kernel; translator/gen_filter.py, gen_manifest.py, gen_bound.py; JSON / Avro transport of a stored "
+                  "(tag, payload) pair and str(k) / int(k) of field ids taken as exact (validated by the 'history' correspondence); "
+                  "snapshot expiry, rolled-back transactions, garbage collection and re-opening modelled as not touching the "
+                  "current manifests (exercised by the oracles and the 'history' correspondence); pyarrow primitive semantics as written in Model/Filter.v eval3 "
                   "(validated by the 'prims' correspondence); oracles X (lossy is_in casts), E (literals pyarrow refuses at "
                   "evaluation), PA (literals pyarrow refuses when building) are universally quantified; errors are modelled per "
                   "row (a 0-row file never raises in the model); executor.map order preservation for parallel scans; date vs "
                   "timestamp comparisons (pyarrow casts, Python refuses) are outside the model and covered by the oracle only",
-    "technique": "Coq proof over translator-regenerated filter compiler + differential correspondence + independent SQL oracle",
+    "technique": "Coq proof over translator-regenerated filter compiler and manifest kernels (induction over transaction histories) "
+                 "+ differential correspondence + independent SQL oracle over random and directed table histories",
     "design_ref": "DESIGN.md section 5 C12",
 }
 
@@ -283,7 +314,11 @@ def gen_cond(rng, kind: str, cross: float = 0.15, malformed: float = 0.0, dom: O
 
 
 def gen_table_case(rng, kinds_pool: List[str], cross: float, malformed: float, max_files: int = 4,
-                   long_text: float = 0.0, long_dom: Optional[List[Any]] = None) -> Dict[str, Any]:
+                   long_text: float = 0.0, long_dom: Optional[List[Any]] = None, history: float = 0.0,
+                   max_steps: int = 5) -> Dict[str, Any]:
+    """`history`: probability that the table is built by a random HISTORY (harness/lib/c12_hist.py: transactions appending
+    several files, deleting some files of a manifest or whole manifests, both at once, expiring snapshots, aborted
+    transactions, collections, reloads) instead of one append per file."""
     long_dom = long_dom if long_dom is not None else LONG_TEXT
     ncols = rng.choice([1, 2, 2, 3])
     kinds = [rng.choice(kinds_pool) for _ in range(ncols)]
@@ -292,18 +327,26 @@ def gen_table_case(rng, kinds_pool: List[str], cross: float, malformed: float, m
     cols = [f"c{i}" for i in range(ncols)]
     doms = [long_dom if (k == "string" and long_text and rng.random() < 0.6) else DOMAIN[k] for k in kinds]
     files = []
-    for _ in range(rng.choice(list(range(0, max_files + 1)) + [1, 2])):
+    steps = None
+    if history and rng.random() < history:
+        steps, nfiles = hist.gen_history(rng, max_steps=max_steps)
+    else:
+        nfiles = rng.choice(list(range(0, max_files + 1)) + [1, 2])
+    for _ in range(nfiles):
         rows = gen_rows(rng, cols, kinds, rng.choice([1, 2, 3, 5]), doms)
         if rng.random() < 0.25:
             rows = [dict(rows[0]) for _ in rows]          # single-valued file (prunable)
         files.append(rows)
-    return {"cols": cols, "kinds": kinds, "files": files, "doms": doms}
+    case = {"cols": cols, "kinds": kinds, "files": files, "doms": doms}
+    if steps is not None:
+        case["history"] = steps
+    return case
 
 
 def file_extremes(case: Dict[str, Any], col: str) -> List[Any]:
     """min and max of the column in each file (non-NULL, non-NaN values), i.e. what exact bounds would be."""
     out = []
-    for f in case["files"]:
+    for f in hist.live_files(case):
         vs = [r[col] for r in f if r[col] is not None and r[col] == r[col]]
         if vs:
             try:
@@ -339,14 +382,10 @@ def gen_columns(rng, case: Dict[str, Any]) -> Optional[List[str]]:
 
 # =================================================================================== the real library
 def make_table(path: str, case: Dict[str, Any]):
-    from datashard import create_table
-    from datashard.data_structures import Schema
-    fields = [{"id": i + 1, "name": c, "type": k, "required": False} for i, (c, k) in enumerate(zip(case["cols"], case["kinds"]))]
+    """The table of a case: its files appended one by one, or -- when the case has a "history" -- built by that sequence of
+    multi-file / deleting / mixed / expiring / aborted transactions, collections and reloads (harness/lib/c12_hist.py)."""
     shutil.rmtree(path, ignore_errors=True)
-    table = create_table(path, Schema(schema_id=1, fields=fields))
-    for rows in case["files"]:
-        table.append_records([dict(r) for r in rows])
-    return table
+    return hist.build(path, case)[0]
 
 
 API_VARIANTS: List[Tuple[str, Any]] = []
@@ -383,7 +422,7 @@ def judge(case: Dict[str, Any], flt: List[Tuple[str, Tuple]], columns: Optional[
 
 def _judge(case, flt, columns, results):
     kinds = dict(zip(case["cols"], case["kinds"]))
-    allrows = [r for f in case["files"] for r in f]
+    allrows = hist.live_rows(case)          # what the table holds after its history (list semantics, no library)
     outcomes = {name: (r[0], tuple(r[1]) if r[0] == "rows" else None) for name, r in results.items()}
     distinct = set(outcomes.values())
     try:
@@ -454,12 +493,17 @@ def case_json(case, flt, columns, extra=None):
     d = {"cols": case["cols"], "kinds": case["kinds"],
          "files": [[{k: val_json(v) for k, v in r.items()} for r in f] for f in case["files"]],
          "filter": [[c, cond_json(cd)] for c, cd in flt], "columns": columns}
+    if case.get("history") is not None:
+        d["history"] = case["history"]
+        d["live_files"] = hist.live_indexes(case)
     d.update(extra or {})
     return d
 
 
 def case_unjson(d):
     case = {"cols": d["cols"], "kinds": d["kinds"], "files": [[{k: val_unjson(v) for k, v in r.items()} for r in f] for f in d["files"]]}
+    if d.get("history") is not None:
+        case["history"] = d["history"]
     flt = [(c, cond_unjson(cd)) for c, cd in d["filter"]]
     return case, flt, d["columns"]
 
@@ -476,6 +520,11 @@ def pool():
     if not _POOL:
         _POOL.append(c12_worker.Pool())
     return _POOL[0]
+
+
+def wire(case: Dict[str, Any]) -> Dict[str, Any]:
+    """What a child needs of a case."""
+    return {k: case[k] for k in ("cols", "kinds", "files", "history") if k in case}
 
 
 def w_run_table(path: str, case: Dict[str, Any], requests: List[Tuple[Optional[List[str]], Optional[Dict[str, Any]]]]):
@@ -498,7 +547,7 @@ def run_tables(ctx, jobs: List[Tuple[Dict[str, Any], List[Tuple[List[Tuple[str, 
     pj = []
     for case, reqs, _src in jobs:
         _TABLE_SEQ[0] += 1
-        pj.append(("w_run_table", (os.path.join(ctx.scratch, f"w{_TABLE_SEQ[0]}"), {k: case[k] for k in ("cols", "kinds", "files")},
+        pj.append(("w_run_table", (os.path.join(ctx.scratch, f"w{_TABLE_SEQ[0]}"), wire(case),
                                    [(c, f) for _flt, c, f in reqs]), job_timeout(case, len(reqs))))
     res = pool().map(pj)
     out = []
@@ -518,7 +567,7 @@ def run_tables(ctx, jobs: List[Tuple[Dict[str, Any], List[Tuple[List[Tuple[str, 
             if _PINNED[0] > 2:
                 break
             _TABLE_SEQ[0] += 1
-            st, v = pool().call("w_run_table", (os.path.join(ctx.scratch, f"w{_TABLE_SEQ[0]}"), {k2: case[k2] for k2 in ("cols", "kinds", "files")}, [(cols, fpy)]),
+            st, v = pool().call("w_run_table", (os.path.join(ctx.scratch, f"w{_TABLE_SEQ[0]}"), wire(case), [(cols, fpy)]),
                                 job_timeout(case, 1))
             if st == "ok":
                 if reqs:
@@ -557,6 +606,8 @@ def evaluate_case(ctx, case, flt, columns) -> Tuple[Optional[Tuple[str, str]], D
 def shrink(ctx, case, flt, columns, key: str, budget: int = 60):
     """Greedy delta debugging: drop files, rows, filter entries, projection while the same verdict key persists."""
     def still(c, f, cols):
+        if not hist.well_formed(c):
+            return False
         try:
             v, _ = evaluate_case(ctx, c, f, cols)
         except Exception:  # noqa: BLE001
@@ -566,13 +617,24 @@ def shrink(ctx, case, flt, columns, key: str, budget: int = 60):
     while changed and budget > 0:
         changed = False
         for i in range(len(case["files"])):
-            c2 = dict(case, files=case["files"][:i] + case["files"][i + 1:])
+            c2 = hist.drop_file(case, i)
             budget -= 1
             if still(c2, flt, columns):
                 case, changed = c2, True
                 break
         if changed:
             continue
+        if case.get("history") is not None:
+            # steps that append nothing (deletes, expiry, collections, reloads, aborted transactions), then single operations
+            cands = [hist.drop_step(case, k) for k in range(len(case["history"]))]
+            cands = [c for c in cands if c is not None] + [c for k in range(len(case["history"])) for c in hist.simplify_step(case, k)]
+            for c2 in cands:
+                budget -= 1
+                if still(c2, flt, columns):
+                    case, changed = c2, True
+                    break
+            if changed:
+                continue
         for i, f in enumerate(case["files"]):
             for j in range(len(f)):
                 if len(f) == 1:
@@ -601,9 +663,14 @@ def shrink(ctx, case, flt, columns, key: str, budget: int = 60):
     return case, flt, columns
 
 
+_SHRUNK: Dict[str, int] = {}
+
+
 def report(ctx, verdict, case, flt, columns, results, source: str) -> None:
     key, text = verdict
-    case, flt, columns = shrink(ctx, case, flt, columns, key)
+    _SHRUNK[key] = _SHRUNK.get(key, 0) + 1
+    if _SHRUNK[key] <= 3:                       # the first few failing inputs of a kind are minimised; the others are reported as found
+        case, flt, columns = shrink(ctx, case, flt, columns, key)
     try:
         v2, results2 = evaluate_case(ctx, case, flt, columns)
     except RuntimeError:
@@ -622,11 +689,11 @@ def report(ctx, verdict, case, flt, columns, results, source: str) -> None:
             sub = "scan-vs-batches"
     elif key == "malformed-accepted":
         acc = [n_ for n_, r_ in results.items() if r_[0] != "raises"]
-        sub = ("scan" if all(n_.startswith("scan(") for n_ in acc) else "other") + ("-empty-table" if not case["files"] else "-populated-table")
+        sub = ("scan" if all(n_.startswith("scan(") for n_ in acc) else "other") + ("-empty-table" if not hist.live_files(case) else "-populated-table")
     elif key == "wrong-rows":
         got = list(next(iter(results.values()))[1]) if next(iter(results.values()))[0] == "rows" else []
         try:
-            exp = sqlref.canon_rows(sqlref.expected_rows([r for f in case["files"] for r in f], sqlref.atoms(flt), columns))
+            exp = sqlref.canon_rows(sqlref.expected_rows(hist.live_rows(case), sqlref.atoms(flt), columns))
         except Exception:  # noqa: BLE001
             exp = []
         missing, extra = [r for r in exp if r not in got], [r for r in got if r not in exp]
@@ -666,7 +733,7 @@ def judge_all(ctx, jobs, results, tag: str) -> int:
             if r is None:
                 continue
             n += 1
-            ctx.count(len(API_VARIANTS), (tag, repr(case["files"]), repr(flt), repr(columns)))
+            ctx.count(len(API_VARIANTS), (tag, repr(case["files"]), repr(case.get("history")), repr(flt), repr(columns)))
             verdict = judge(case, flt, columns, r)
             if verdict:
                 report(ctx, verdict, case, flt, columns, r, src)
@@ -808,6 +875,67 @@ def oracle_extremes(ctx) -> None:
     ctx.stats["extreme_cases"] = judge_all(ctx, jobs, run_tables(ctx, jobs), "extremes")
 
 
+def add_shape(acc: Dict[str, int], case: Dict[str, Any]) -> None:
+    if case.get("history") is None:
+        return
+    acc["tables_built_by_a_history"] = acc.get("tables_built_by_a_history", 0) + 1
+    sh = hist.shape(case)
+    for k, v in sh.items():
+        acc[k] = acc.get(k, 0) + v
+    if sh["partial_manifest_deletes"]:
+        acc["tables_with_a_rewritten_manifest"] = acc.get("tables_with_a_rewritten_manifest", 0) + 1
+
+
+def oracle_rewrites(ctx) -> None:
+    """Per column type (ordered or not, with or without stored bounds) and for long text: a table whose manifests went
+    through REWRITES before it is queried -- several files appended by one transaction, some of them deleted later (the
+    manifest is rewritten with the survivors carried over, one manifest twice), a mixed transaction, expiry, a collection,
+    a fresh handle -- filtered with literals at and around every live file's minimum and maximum, the NULL / empty-set /
+    alias edge cases, through all API variants.  The expected rows are those of the files that are live by the list
+    semantics of harness/lib/c12_hist.py."""
+    families: List[Tuple[str, str, List[Any]]] = [("string", "long text with shared prefixes", LONG_TEXT)]
+    for kind in MODEL_KINDS + NOBOUNDS_KINDS:
+        families.append((kind, kind, DOMAIN[kind]))
+    jobs = []
+    shapes: Dict[str, int] = {}
+    for kind, label, dom in families:
+        vals = []
+        for v in dom:
+            c = canon_cell(kind, v)
+            if c == c and not any(same(c, w) for w in vals):
+                vals.append(c)
+        vals = sorted(vals)
+        nans = [canon_cell(kind, v) for v in dom if isinstance(v, float) and v != v][:1]
+        nfiles = 5
+        # contiguous value ranges per file (values repeat over the files when the domain is small), NULL and NaN rows spread
+        files = []
+        for j in range(nfiles):
+            lo, hi = j * len(vals) // nfiles, max(j * len(vals) // nfiles + 1, (j + 1) * len(vals) // nfiles)
+            g = vals[lo:hi] or [vals[j % len(vals)]]
+            rows = [{"c0": v, "c1": 10 * j + i} for i, v in enumerate(g)]
+            if j % 2 == 0:
+                rows.append({"c0": None, "c1": 10 * j + 7})
+            if nans and j in (1, 2):
+                rows.append({"c0": nans[0], "c1": 10 * j + 8})
+            files.append(rows)
+        for variant in (0, 1):
+            case = {"cols": ["c0", "c1"], "kinds": [kind, "long"], "files": files, "history": hist.rewrite_history(nfiles, variant)}
+            add_shape(shapes, case)
+            ext = file_extremes(case, "c0")
+            flts = extreme_filters("c0", ext, "c1") + edge_filters(kind, [r["c0"] for f in hist.live_files(case) for r in f if r["c0"] is not None])
+            if ctx.tier == "quick":
+                flts = ctx.rng.sample(flts, min(len(flts), 45 if label.startswith("long text") else 28))
+            reqs = []
+            for k, flt in enumerate(flts):
+                columns = None if k % 3 else ["c1"]
+                reqs.append((flt, columns, sqlref.filter_py(flt)))
+            step = 40
+            for a in range(0, len(reqs), step):
+                jobs.append((case, reqs[a:a + step], f"rewritten manifests (history {variant}) of a {label} column"))
+    ctx.stats["rewrite_cases"] = judge_all(ctx, jobs, run_tables(ctx, jobs), "rewrites")
+    ctx.stats["rewrite_histories"] = shapes
+
+
 def oracle_e2e(ctx) -> None:
     rng = ctx.rng
     ntables = 120 if ctx.tier == "quick" else 900
@@ -815,10 +943,12 @@ def oracle_e2e(ctx) -> None:
     stats = {"all_raise": 0, "empty_result": 0, "nonempty_result": 0, "projected": 0, "empty_tables": 0, "tables_with_long_text": 0,
              "filters_with_literal_at_a_file_extreme": 0}
     opmix: Dict[str, int] = {}
+    shapes: Dict[str, int] = {}
     jobs = []
     for t in range(ntables):
-        case = gen_table_case(rng, E2E_KINDS, cross=0.15, malformed=0.1, long_text=0.25)
-        if not case["files"]:
+        case = gen_table_case(rng, E2E_KINDS, cross=0.15, malformed=0.1, long_text=0.25, history=0.5)
+        add_shape(shapes, case)
+        if not hist.live_files(case):
             stats["empty_tables"] += 1
         if any(d is LONG_TEXT for d in case["doms"]):
             stats["tables_with_long_text"] += 1
@@ -853,6 +983,7 @@ def oracle_e2e(ctx) -> None:
     ctx.stats["e2e_filters"] = total
     ctx.stats["e2e_api_calls"] = total * len(API_VARIANTS)
     ctx.stats["e2e_outcomes"] = stats
+    ctx.stats["e2e_histories"] = shapes
     ctx.stats["judgement_classes_all_oracles"] = dict(JUDGED)
     ctx.stats["e2e_operator_mix"] = dict(sorted(opmix.items(), key=lambda kv: -kv[1])[:30])
 
@@ -1292,11 +1423,17 @@ def corr_pipelines(ctx) -> None:
     nfilters = 8 if ctx.tier == "quick" else 12
     exprs, impl, descs = [], [], []
     order_equal = 0
+    with_history = 0
     gen = []
     for t in range(ntables):
         # some string columns hold text longer than 128 characters sharing its prefix: the model's bounds are the exact
         # minimum / maximum (file_bounds), so an inexact stored bound shows as a pruning disagreement
-        case = gen_table_case(rng, KINDS, 0.0, 0.0, max_files=3, long_text=0.2, long_dom=MODEL_LONG_TEXT)
+        # ... and some tables are built by a HISTORY (multi-file transactions, partial deletes that rewrite manifests, mixed
+        # transactions, expiry): the model scans the LIVE files of the list semantics with their exact bounds
+        # (C12_history_sql), so a bound that a manifest rewrite changed shows as a pruning disagreement too
+        case = gen_table_case(rng, KINDS, 0.0, 0.0, max_files=3, long_text=0.2, long_dom=MODEL_LONG_TEXT, history=0.35, max_steps=4)
+        if case.get("history") is not None:
+            with_history += 1
         reqs = []
         for _ in range(nfilters):
             flt = []
@@ -1316,7 +1453,7 @@ def corr_pipelines(ctx) -> None:
                 columns = []                       # empty projection: scan() loses the rows in pa.concat_tables (modelled)
             reqs.append((flt, columns))
         gen.append((case, reqs))
-    jobs = [("w_run_pipelines", (os.path.join(ctx.scratch, f"p{t}"), {k: case[k] for k in ("cols", "kinds", "files")},
+    jobs = [("w_run_pipelines", (os.path.join(ctx.scratch, f"p{t}"), wire(case),
                                  [(c, sqlref.filter_py(f)) for f, c in reqs]), job_timeout(case, len(reqs)))
             for t, (case, reqs) in enumerate(gen)]
     ran = pool().map(jobs)
@@ -1335,7 +1472,7 @@ def corr_pipelines(ctx) -> None:
         cols, kinds = case["cols"], case["kinds"]
         colnum = {c: i for i, c in enumerate(cols)}
         colnum["zz"] = 50
-        files_coq = "[" + "; ".join(f"{{| frows := {rows_coq(f, colnum)}; fcs := true |}}" for f in case["files"]) + "]"
+        files_coq = "[" + "; ".join(f"{{| frows := {rows_coq(f, colnum)}; fcs := true |}}" for f in hist.live_files(case)) + "]"
         sch = "[" + "; ".join(str(colnum[c]) for c in cols) + "]"
         ids = "[" + "; ".join(f"({colnum[c]}, {i + 1})" for i, c in enumerate(cols)) + "]"
         kinds_coq = "[" + "; ".join(f"({colnum[c]}, {KIND_COQ[k]})" for c, k in zip(cols, kinds)) + "]"
@@ -1375,23 +1512,120 @@ def corr_pipelines(ctx) -> None:
         if sorted(map(repr, mrows)) != sorted(map(repr, irows)):
             bad.append(dict(d, model=repr(m)[:400], impl=repr(i)[:400], why="row multiset differs"))
     ctx.correspondence("pipelines", len(descs), bad)
-    ctx.stats["pipelines"] = {"api_runs": len(descs), "impl_error_outcomes": errs, "same_order_too": order_equal}
+    ctx.stats["pipelines"] = {"api_runs": len(descs), "impl_error_outcomes": errs, "same_order_too": order_equal,
+                              "tables_built_by_a_history": with_history}
+
+
+# =================================================================================== correspondence: history
+def w_history(path: str, case: Dict[str, Any]):
+    """CHILD: run the history; -> (manifests of the current snapshot as stored, data files the scans will read)."""
+    try:
+        table, paths = hist.build(path, case)
+        by_path = {p.lstrip("/"): i for i, p in paths.items()}
+        view = hist.manifest_view(table, paths)
+        dfs = [(by_path.get(df.file_path.lstrip("/"), -1), sorted((df.lower_bounds or {}).items()), sorted((df.upper_bounds or {}).items()))
+               for df in table._get_all_data_files()]
+        return view, dfs
+    finally:
+        shutil.rmtree(path, ignore_errors=True)
+
+
+def history_terms(case: Dict[str, Any]) -> Tuple[str, str]:
+    """(ids, txs) of a case as Model/Manifest.v terms: file i is `written ids i {| frows := rows of file i |}`, path = i."""
+    cols = case["cols"]
+    colnum = {c: i for i, c in enumerate(cols)}
+    ids = "[" + "; ".join(f"({colnum[c]}, {i + 1})" for i, c in enumerate(cols)) + "]"
+    wr = lambda i: f"written {ids} {i} {{| frows := {rows_coq(case['files'][i], colnum)}; fcs := true |}}"
+    txs = "[" + "; ".join("{| tx_app := [" + "; ".join(wr(i) for i in apps) + "]; tx_del := [" + "; ".join(str(i) for i in dels) + "] |}"
+                          for apps, dels in hist.transactions(case)) + "]"
+    return ids, txs
+
+
+def corr_history(ctx) -> None:
+    """The manifest machine: real histories (Transaction.commit -> _commit_file_ops -> create_manifest_file /
+    read_manifest_file) vs Model/Manifest.v `run` -- manifest by manifest, entry by entry: which file, and per bounded
+    column the STORED tag and the value decoded from the stored string; then Table._get_all_data_files vs `table_files`,
+    and both against the list semantics (`spec_run`, harness/lib/c12_hist.live_indexes)."""
+    rng = ctx.rng
+    cases = []
+    for kind in KINDS:                                   # directed: every column type through both rewrite histories
+        if kind == "string":
+            vals = sorted(MODEL_LONG_TEXT[1:6])
+        else:
+            vals = sorted({c for c in (canon_cell(kind, v) for v in DOMAIN[kind]) if c == c})
+        nan = [NAN] if kind in ("double", "float") else []
+        files = [[{"c0": vals[j % len(vals)], "c1": j}] + ([{"c0": None, "c1": 50 + j}] if j % 2 else []) + ([{"c0": nan[0], "c1": 60 + j}] if nan and j == 1 else [])
+                 for j in range(5)]
+        for variant in (0, 1):
+            cases.append({"cols": ["c0", "c1"], "kinds": [kind, "long"], "files": files, "history": hist.rewrite_history(5, variant)})
+    for _ in range(40 if ctx.tier == "quick" else 400):
+        cases.append(gen_table_case(rng, KINDS, 0.0, 0.0, long_text=0.2, long_dom=MODEL_LONG_TEXT, history=1.0, max_steps=5))
+    jobs = [("w_history", (os.path.join(ctx.scratch, f"h{t}"), wire(case)), 60.0 + 2.0 * len(case["files"])) for t, case in enumerate(cases)]
+    ran = pool().map(jobs)
+    exprs, descs = [], []
+    shapes: Dict[str, int] = {}
+    side = lambda bs: "[" + "; ".join(f"({k}, {coq_string(tag)}, {val_to_coq(v)})" for k, tag, v in bs) + "]"
+    plain = lambda bs: "[" + "; ".join(f"({k}, {val_to_coq(v)})" for k, v in bs) + "]"
+    for case, (status, val) in zip(cases, ran):
+        if status == "skipped":
+            continue
+        if status != "ok":
+            if status in ("timeout", "died"):
+                ctx.violation("library-" + ("hang" if status == "timeout" else "died") + ":history",
+                              f"[history] the library did not finish ({status} {val}) building a table by the history {case['history']!r}",
+                              case_json(case, [], None, {"verdict": "library-" + status}))
+            else:
+                ctx.proof_problems.append(f"history case could not be run: {str(val)[-400:]}")
+            continue
+        add_shape(shapes, case)
+        view, dfs = val
+        ids, txs = history_terms(case)
+        impl_view = "[" + "; ".join("[" + "; ".join(f"({i}, {side(lo)}, {side(hi)})" for i, lo, hi in m) + "]" for m in view) + "]"
+        impl_dfs = "[" + "; ".join(f"({i}, {plain(lo)}, {plain(hi)})" for i, lo, hi in dfs) + "]"
+        tagged = "(fun kv => (fst kv, fst (snd kv), dec (snd kv)))"
+        exprs.append(f"(map (map (fun e => (spath e, map {tagged} (slo e), map {tagged} (shi e)))) (run {txs} []), "
+                     f"({impl_view} : list (list (Z * list (Z * string * value) * list (Z * string * value)))), "
+                     f"map (fun d => (dpath d, dlo d, dhi d)) (table_files (run {txs} [])), "
+                     f"({impl_dfs} : list (Z * list (Z * value) * list (Z * value))), "
+                     f"map dpath (spec_run {txs} []))")
+        descs.append(case)
+    got = coqbuild.coq_eval(REQ_HIST, exprs, preamble=PREAMBLE, chunk=20)
+    bad = []
+    for case, g in zip(descs, got):
+        ctx.count(1, ("history", repr(case["files"]), repr(case["history"])))
+        # Coq prints ((((a, b), c), d), e) as (a, b, c, d, e)
+        m_view, i_view, m_dfs, i_dfs, spec = g
+        d = {"case": case_json(case, [], None)}
+        if m_view != i_view:
+            k = next((j for j, (a, b) in enumerate(zip(m_view, i_view)) if a != b), min(len(m_view), len(i_view)))
+            bad.append(dict(d, why="manifests of the current snapshot differ (file, [(field id, stored tag, decoded bound)] lower, upper)",
+                            first_differing_manifest=k, model=repr(m_view[k:k + 1])[:600], impl=repr(i_view[k:k + 1])[:600]))
+        elif m_dfs != i_dfs:
+            bad.append(dict(d, why="the data files a scan reads (with decoded bounds) differ", model=repr(m_dfs)[:600], impl=repr(i_dfs)[:600]))
+        elif [int(x) for x in spec] != hist.live_indexes(case) or [int(x[0]) for x in m_dfs] != hist.live_indexes(case):
+            bad.append(dict(d, why="live files differ from the list semantics", model=repr(spec), harness=hist.live_indexes(case)))
+    ctx.correspondence("history", len(descs), bad)
+    ctx.stats["history"] = dict(shapes, cases=len(descs))
 
 
 # =================================================================================== driver
 def run(ctx) -> None:
-    ctx.rule = ("oracle: random tables (1-3 columns over 9 column types plus binary / fixed columns without stored bounds, 0-4 files, NULL / NaN / inf / single-valued files) x random filters "
+    ctx.rule = ("oracle: random tables (1-3 columns over 9 column types plus binary / fixed columns without stored bounds, 0-4 files appended one by one "
+                "OR built by a random history of multi-file / deleting / mixed / expiring / aborted transactions, collections and reloads; NULL / NaN / inf / single-valued files) x random filters "
                 "(all operator spellings in random case, between, in/not_in with empty / NULL-containing / cross-kind sets, is_null aliases, "
                 "conjunctions, 8% malformed) x projections x 12 API variants, judged by an independent SQL evaluator; a case is distinct by "
-                "its (files, filter, projection); correspondence: pyarrow primitives on exhaustive small domains, parser on enumerated + "
-                "random conditions, builder and pipelines on random tables")
+                "its (files, history, filter, projection); directed: per column type a table whose manifests were rewritten (twice), "
+                "literals at the live files' extremes; correspondence: pyarrow primitives on exhaustive small domains, parser on "
+                "enumerated + random conditions, builder and pipelines on random tables, manifest machine on random and directed histories")
     ctx.trusted_base += [
         "translator/gen_filter.py (Python ast -> Gallina for _build_condition handlers, the &-fold, the operator/alias tables; rest of "
         "parse_filter_dict / _parse_op / to_pyarrow_compute_expression pinned by golden AST)",
         "pyarrow primitive semantics as written in Model/Filter.v eval3 / select / select_lenient (validated by the 'prims', 'build' and "
         "'pipelines' correspondences against the installed pyarrow)",
         "oracles X, E, PA are universally quantified in every theorem (nothing assumed about lossy is_in casts, refused literals)",
-        "harness: harness/props/c12.py, harness/lib/sqlref.py (independent SQL evaluator), harness/lib/coqbuild.py",
+        "translator/gen_manifest.py (bound expressions of create_manifest_file / read_manifest_file, survivor test and keep / rewrite / "
+        "drop decision of _commit_file_ops; loop / call structure around them checked, fail-closed), translator/gen_bound.py",
+        "harness: harness/props/c12.py, harness/lib/c12_hist.py (histories and their list semantics), harness/lib/sqlref.py (independent SQL evaluator), harness/lib/coqbuild.py",
     ]
     ctx.assumptions += [
         "errors are modelled per row: a file or batch with 0 rows never raises in the model (the library cannot write 0-row files)",
@@ -1399,6 +1633,11 @@ def run(ctx) -> None:
         "all files of a table share the parquet schema `sch` (C11); projections are judged against it",
         "date vs timestamp comparisons (pyarrow casts, Python refuses) and inexact literals on float32 columns are outside the model; the oracle demands cross-API agreement there",
         "NaN membership (NaN in [NaN]) is judged by cross-API agreement only (DESIGN.md C12 Interpretation)",
+        "histories: every data file has its own path (uuid names; NoDup hypothesis of C12_history_files); paths are compared after stripping "
+        "leading '/' on both sides (pinned by the translator; the oracle deletes by both spellings); the JSON text and the Avro map between "
+        "_encode_bound and _decode_bound carry (tag, payload) exactly (Model/Bound.v; checked per entry by the 'history' correspondence)",
+        "the content of a table after a history is DEFINED by the list semantics (a committed transaction removes the files it deletes and "
+        "adds the files it appends); a file appended and deleted by the same transaction is not generated",
     ]
     import time
     timings: Dict[str, float] = {}
@@ -1414,10 +1653,11 @@ def run(ctx) -> None:
     timed("proofs", lambda c: (c.proofs(THEOREMS, gen_files=GEN_FILES), c.allow_axioms([])))
     # implementation-only oracles always run: they are the search for a concrete failing input
     for name, fn in (("corpus", oracle_corpus), ("malformed", oracle_malformed), ("edges", oracle_edges), ("extremes", oracle_extremes),
-                     ("e2e", oracle_e2e)):
+                     ("rewrites", oracle_rewrites), ("e2e", oracle_e2e)):
         timed("oracle_" + name, fn)
     try:
-        for name, fn in (("prims", corr_prims), ("parse", corr_parse), ("build", corr_build), ("pipelines", corr_pipelines)):
+        for name, fn in (("prims", corr_prims), ("parse", corr_parse), ("build", corr_build), ("history", corr_history),
+                         ("pipelines", corr_pipelines)):
             timed("corr_" + name, fn)
     except RuntimeError as e:
         ctx.proof_problems.append("model evaluation failed: " + str(e)[:600])
@@ -1430,6 +1670,8 @@ def replay(ctx, payload) -> int:
         return 2
     case, flt, columns = case_unjson(d)
     verdict, results = evaluate_case(ctx, case, flt, columns)
+    if case.get("history") is not None:
+        print("replay: table built by the history", case["history"], "-> live files", hist.live_indexes(case), "of", len(case["files"]))
     print("replay: filter", repr(sqlref.filter_py(flt)), "columns", columns)
     for k, v in results.items():
         print("   ", k, "->", v[1] if v[0] == "raises" else list(v[1]))
